@@ -219,16 +219,23 @@ Proof.
   vm_compute. repeat split; reflexivity.
 Qed.
 
-(* ... and sequences with different feature counts given to an UNinitialised offline node pass check_xy
-   (late-rejection:ragged-feature-count:uninitialised-fit), although the same list is rejected once the node is initialised *)
-Theorem C12_ragged_uninitialised_refuted :
+(* sequences with different feature counts given to an UNinitialised offline node still pass check_xy (nothing is known to
+   compare them with), but since 7fd0837 the disagreement is found before the node is initialised: the fit is refused with a
+   ValueError and the node is as it was (buffers cleaned by fit's failure path); once the node is initialised the same list
+   is refused by check_xy itself.  (Before the repair: Irregular -- initialised from the first sequence, failure inside numpy
+   or silent broadcast of the narrower targets; finding late-rejection:ragged-feature-count:uninitialised-fit.) *)
+Theorem C12_ragged_uninitialised_rejected :
   let x := DList [DArr true [4; 3]; DArr true [4; 4]] in
   let y := DList [DArr true [4; 2]; DArr true [4; 2]] in
-  (exists r, check_xy (fresh KOffline None None) x (Some y) true false true = ROk r) /\
-  step (fresh KOffline None None) (OFit x (Some y)) = Irregular /\
+  let y' := DList [DArr true [4; 2]; DArr true [4; 1]] in
+  let n0 := fresh KOffline None None in
+  (exists r, check_xy n0 x (Some y) true false true = ROk r) /\
+  step n0 (OFit x (Some y)) = Err PInit ValueError (clean_buffers n0) /\
+  step n0 (OPartialFit x (Some y)) = Err PInit ValueError n0 /\
+  step n0 (OFit (DList [DArr true [4; 3]; DArr true [4; 3]]) (Some y')) = Err PInit ValueError (clean_buffers n0) /\
   forall n, input_dim n = Some [3] -> check_xy n x (Some y) true false true = RErr ValueError.
 Proof.
-  split; [vm_compute; eexists; reflexivity|]. split; [vm_compute; reflexivity|].
+  repeat split; try (vm_compute; reflexivity); [vm_compute; eexists; reflexivity|].
   intros n I. unfold check_xy. rewrite I. reflexivity.
 Qed.
 
@@ -258,5 +265,5 @@ Print Assumptions C12_delay_state_refuted.
 Print Assumptions C12_sklearn_state_refuted.
 Print Assumptions C12_too_many_dims_prefix_refuted.
 Print Assumptions C12_3d_input_accepted_refuted.
-Print Assumptions C12_ragged_uninitialised_refuted.
+Print Assumptions C12_ragged_uninitialised_rejected.
 Print Assumptions C12_uninitialised_teacher_stays_refuted.
